@@ -158,7 +158,7 @@ func isnew[T any](x []T) bool { return true }
 func isnewobj[T any](p *T) bool { return p != nil }
 
 // otherarray(a, b): the slices are backed by different arrays (or a is empty).
-func otherarray(a, b []byte) bool { return true }
+func otherarray[A, B any](a []A, b []B) bool { return true }
 
 // isnewmap(m): the map was made during the call.
 func isnewmap[K comparable, V any](m map[K]V) bool { return m != nil }
